@@ -726,7 +726,12 @@ func (f *HashFile) UnmarshalText(b []byte) error {
 	sc.Scan()
 	sum := strings.TrimPrefix(sc.Text(), "h1:")
 	for sc.Scan() {
-		li := strings.SplitN(sc.Text(), "h1:", 2)
+		// The hash holds no colon, a file name may hold
+		// one: the last "h1:" of a line starts the hash.
+		var li []string
+		if i := strings.LastIndex(sc.Text(), "h1:"); i != -1 {
+			li = []string{sc.Text()[:i], sc.Text()[i+len("h1:"):]}
+		}
 		if len(li) != 2 {
 			return ErrChecksumFormat
 		}
